@@ -54,6 +54,28 @@ impl OsStreams {
         let _g = Guard;
         f()
     }
+    /// Like `with_node`, but the node's entropy for this callback BEGINS with `prefix` (a rare but
+    /// legal outcome of a healthy source: a burst of zero or all-one bytes) and then continues with
+    /// the node's stream.
+    pub fn with_node_prefix<R>(&mut self, node: u64, prefix: Vec<u8>, f: impl FnOnce() -> R) -> R {
+        let st = self.stream(node);
+        let mut pos = 0usize;
+        let prev = getrandom::sim::install(Box::new(move |buf: &mut [u8]| {
+            for b in buf.iter_mut() {
+                if pos < prefix.len() {
+                    *b = prefix[pos];
+                    pos += 1;
+                } else {
+                    let mut one = [0u8; 1];
+                    st.borrow_mut().fill_bytes(&mut one);
+                    *b = one[0];
+                }
+            }
+        }));
+        debug_assert!(prev.is_none(), "nested with_node");
+        let _g = Guard;
+        f()
+    }
     /// Two nodes given the *same* stream id see identical entropy (used by C16).
     pub fn with_stream<R>(&mut self, stream_id: u64, f: impl FnOnce() -> R) -> R {
         self.with_node(stream_id, f)
